@@ -4,7 +4,7 @@
 use crate::drv::{call, gbound, gi, gs};
 use crate::ev::{dec, enc, Ev, Post, Ret};
 use crate::tracked::{self, zst_counts, Zst};
-use circular_buffer::{CircularBuffer, Drain, Iter};
+use circular_buffer::{CircularBuffer, Drain, Iter, IterMut};
 use serde_json::Value;
 use std::ops::Bound;
 use std::panic::{catch_unwind, AssertUnwindSafe};
@@ -13,6 +13,7 @@ type Buf<const N: usize> = CircularBuffer<N, Zst>;
 
 enum ZView<const N: usize> {
     It(Iter<'static, Zst>),
+    Im(IterMut<'static, Zst>),
     Dr(Drain<'static, N, Zst>),
 }
 
@@ -35,7 +36,7 @@ fn to_bound(b: (&'static str, i64)) -> Bound<usize> {
 
 impl<const N: usize> ZDrv<N> {
     fn obs(&self) -> Post {
-        if self.buf.is_null() || matches!(self.view, Some(ZView::Dr(_))) {
+        if self.buf.is_null() || matches!(self.view, Some(ZView::Dr(_)) | Some(ZView::Im(_))) {
             return Post::default();
         }
         let r = catch_unwind(AssertUnwindSafe(|| {
@@ -229,7 +230,7 @@ impl<const N: usize> ZDrv<N> {
                     ev.ret = Ret { k: "slices", n: enc(a + c), slots: vec![enc(a), enc(c)], ..Default::default() };
                 }
             }
-            "drain" | "range" | "iter" if !viewing => {
+            "drain" | "range" | "iter" | "range_mut" | "iter_mut" if !viewing => {
                 let bs = gbound(st, "bs");
                 let be = gbound(st, "be");
                 ev.bs = bs;
@@ -240,12 +241,15 @@ impl<const N: usize> ZDrv<N> {
                 let r = call(&mut ev, None, || match op.as_str() {
                     "drain" => ZView::Dr(bb.drain(rb)),
                     "range" => ZView::It(bb.range(rb)),
+                    "range_mut" => ZView::Im(bb.range_mut(rb)),
+                    "iter_mut" => ZView::Im(bb.iter_mut()),
                     _ => ZView::It(bb.iter()),
                 });
                 if let Some(v) = r {
                     ev.ret = Ret::num(match &v {
                         ZView::Dr(d) => d.len() as i64,
                         ZView::It(d) => d.len() as i64,
+                        ZView::Im(d) => d.len() as i64,
                     });
                     self.view = Some(v);
                 }
@@ -262,6 +266,7 @@ impl<const N: usize> ZDrv<N> {
                         some
                     }),
                     ZView::It(d) => call(&mut ev, None, || (if front { d.next() } else { d.next_back() }).is_some()),
+                    ZView::Im(d) => call(&mut ev, None, || (if front { d.next() } else { d.next_back() }).is_some()),
                 };
                 if let Some(x) = got {
                     self.held.push(x);
@@ -275,6 +280,7 @@ impl<const N: usize> ZDrv<N> {
                 let n = match self.view.as_ref().unwrap() {
                     ZView::Dr(d) => d.len(),
                     ZView::It(d) => d.len(),
+                    ZView::Im(d) => d.len(),
                 };
                 ev.ret = Ret { k: "n", n: n as i64, ids2: vec![], ..Default::default() };
             }
